@@ -1,5 +1,6 @@
 //! Reference models. They never call Kolibrie code.
 pub mod boolfn;
+pub mod datalog_pos;
 pub mod expiry_fixpoint;
 pub mod sparql_ast;
 pub mod sparql_eval;
@@ -11,6 +12,7 @@ pub mod window;
 pub fn selftest() -> Vec<String> {
     let mut errs = Vec::new();
     errs.extend(boolfn::selftest());
+    errs.extend(datalog_pos::selftest());
     errs.extend(expiry_fixpoint::selftest());
     errs.extend(sparql_eval::selftest());
     errs.extend(termdb::selftest());
